@@ -162,6 +162,26 @@ func shardC10(c *Ctx, shard, nshards int) {
 		}
 		run(c10Job{fmt.Sprintf("%s+%s(k=%g) of parts of size %g (%s ...)", kind, fname, k, scale, a.desc), s2, s3}, false)
 	}
+	// unions with operands whose field is not a distance (non-uniform scale): whatever shortcut the union takes, it has to take
+	// the same one for a point no matter how many goroutines are inside it
+	for i := 0; i < c.Pick(12, 120); i++ {
+		if !mine() {
+			continue
+		}
+		r := c.Rng("nondist-union", i)
+		scale := r.LogR(0.1, 20)
+		n := r.IR(2, 6)
+		var ops []sdf.SDF2
+		for j := 0; j < n; j++ {
+			l := leaf2(r, scale)
+			m := sdf.Translate2d(v2.Vec{X: r.R(-6, 6) * scale, Y: r.R(-6, 6) * scale}).Mul(sdf.Rotate2d(r.R(0, 6.28)))
+			if r.P(0.6) {
+				m = m.Mul(sdf.Scale2d(v2.Vec{X: r.LogR(0.25, 4), Y: r.LogR(0.25, 4)}))
+			}
+			ops = append(ops, sdf.Transform2D(l.s2, m))
+		}
+		run(c10Job{fmt.Sprintf("Union2D[%d operands, some scaled non-uniformly]", n), sdf.Union2D(ops...), nil}, false)
+	}
 	// shared sub-expressions: one cached profile object used twice in a model, once directly and once through a second
 	// Cache2D around it (a helper that caches whatever it is given)
 	for i := 0; i < c.Pick(9, 90); i++ {
@@ -263,6 +283,11 @@ func c10Hammer(c *Ctx, j c10Job, nPts, reps int) {
 	var firstGot float64
 	for rep := 0; rep < reps; rep++ {
 		var wg sync.WaitGroup
+		// every other repetition uses more goroutines than CPUs (a pool sized to the CPU count runs dry)
+		W := W
+		if rep%2 == 1 {
+			W = 2*W + 3
+		}
 		for w := 0; w < W; w++ {
 			wg.Add(1)
 			order := c.Rng("order", j.desc, rep, w).Perm(nPts)
